@@ -95,7 +95,10 @@ def generate(rng, tier, index):
 
 def snapshot(bc) -> str:
     from dst.session.world import snapshot_config
-    return snapshot_config(bc)
+    try:
+        return snapshot_config(bc)
+    except Exception as e:  # noqa: BLE001 - observing the configuration must never fail
+        return f"OBSERVATION-FAILED:{type(e).__name__}:{e}"
 
 
 class State:
@@ -232,6 +235,8 @@ def execute(plan: dict) -> Result:
     with LightSeams(plan.get("run_seed", "0" * 16)) as seams:
         twin = BeaconConfig(block)
         twin_snap = snapshot(twin)
+        if twin_snap.startswith("OBSERVATION-FAILED"):
+            raise core.HarnessError(f"cannot observe a brand-new configuration: {twin_snap}")
         is_http = twin.protocol in ("http", "https") and not twin.is_trial and bool(twin.public_key)
         for hist in histories:
             shared = State(BeaconConfig(block), priv, is_http)
@@ -267,6 +272,10 @@ def execute(plan: dict) -> Result:
                                 _narrow(plan, hist[:i + 1]))
                     break
                 snap = snapshot(shared.bc)
+                if snap.startswith("OBSERVATION-FAILED"):
+                    res.violate(("C14", "observation_fails_after_history", op.split(":")[0]),
+                                f"after {hist[:i + 1]} the configuration can no longer be observed: {snap}", _narrow(plan, hist[:i + 1]))
+                    break
                 if snap != twin_snap:
                     res.violate(("C14", "config_changed", op.split(":")[0]),
                                 f"after {hist[:i + 1]} the configuration differs from its never-used twin: {_diff(shared.bc, twin)}",
